@@ -1,9 +1,11 @@
 package simrt
 
 import (
+	"fmt"
 	"math/rand"
 	"reflect"
 	"runtime"
+	"sort"
 	"sync"
 )
 
@@ -451,4 +453,29 @@ func Rand64() uint64 {
 		return rand.Uint64()
 	}
 	return s.rng2.next()
+}
+
+// SortedKeys returns the keys of map m as a sorted slice of the key type, so
+// that instrumented code iterates maps in a reproducible (and legal) order.
+func SortedKeys(m interface{}) interface{} {
+	v := reflect.ValueOf(m)
+	kt := v.Type().Key()
+	keys := v.MapKeys()
+	sort.Slice(keys, func(i, j int) bool {
+		a, b := keys[i], keys[j]
+		switch kt.Kind() {
+		case reflect.Int, reflect.Int8, reflect.Int16, reflect.Int32, reflect.Int64:
+			return a.Int() < b.Int()
+		case reflect.Uint, reflect.Uint8, reflect.Uint16, reflect.Uint32, reflect.Uint64, reflect.Uintptr:
+			return a.Uint() < b.Uint()
+		case reflect.String:
+			return a.String() < b.String()
+		}
+		return fmt.Sprint(a.Interface()) < fmt.Sprint(b.Interface())
+	})
+	out := reflect.MakeSlice(reflect.SliceOf(kt), 0, len(keys))
+	for _, k := range keys {
+		out = reflect.Append(out, k)
+	}
+	return out.Interface()
 }
